@@ -117,6 +117,7 @@ type MonWAL struct {
 	wal.WAL
 	mu       sync.Mutex
 	D        Durable
+	DataEntries int   // normal entries with a payload handed to Save (raft's own empty / conf-change entries excluded)
 	Writes   int      // completed + attempted durable writes
 	Kinds    []string // kind of each write
 	CrashAt  int      // 0 = never; k = the k-th durable write
@@ -174,6 +175,11 @@ func (m *MonWAL) Save(hs raftpb.HardState, ents []raftpb.Entry, snap raftpb.Snap
 	defer m.mu.Unlock()
 	if m.Crashed {
 		return ErrCrashed
+	}
+	for _, e := range ents {
+		if e.Type == raftpb.EntryNormal && len(e.Data) > 0 {
+			m.DataEntries++
+		}
 	}
 	empty := etcdRaft.IsEmptyHardState(hs) && len(ents) == 0 && etcdRaft.IsEmptySnap(snap)
 	kind := WriteHardState
@@ -270,6 +276,13 @@ func (m *MonWAL) DeleteGroup() error {
 	err := m.WAL.DeleteGroup()
 	m.D = Durable{Terms: map[uint64]uint64{}}
 	return err
+}
+
+// EntryWrites counts the proposal entries (normal entries with data) handed to Save so far.
+func (m *MonWAL) EntryWrites() int {
+	m.mu.Lock()
+	defer m.mu.Unlock()
+	return m.DataEntries
 }
 
 // Kill makes the store refuse every further write (its process is dead).
